@@ -14,6 +14,14 @@ var Rating = gocvss40.Rating
 
 const Header = "CVSS:4.0"
 
+
+type ErrInvalidMetric = gocvss40.ErrInvalidMetric
+
+var ErrInvalidMetricValue = gocvss40.ErrInvalidMetricValue
+var ErrTooShortVector = gocvss40.ErrTooShortVector
+var ErrInvalidMetricOrder = gocvss40.ErrInvalidMetricOrder
+var ErrInvalidCVSSHeader = gocvss40.ErrInvalidCVSSHeader
+
 type metric struct {
 	abv  string
 	vals []string
